@@ -69,6 +69,12 @@ LStep(st, e, t) ==
                      IF n # 4 \/ \E k \in 1..4 : xs[k].q # AddrReq(63 + k, e.ids[k])
                        THEN Bad(st, "switch state selective: wrong frames")
                      ELSE Expect(last # <<>>, <<IF last # <<>> /\ last[1] = 68 THEN 1 ELSE 0>>)
+                [] e.name = "identify" ->       \* identify remote slave: six frames 0x46..0x4B, each with its own field
+                     IF n = 6 /\ (\A k \in 1..6 : xs[k].q = AddrReq(69 + k, e.ids[k])) /\ e.result = "ok" THEN Good(done)
+                     ELSE Bad(st, "identify remote slave: wrong frames")
+                [] e.name = "identify_nc" ->
+                     IF n = 1 /\ xs[1].q = Cs1(76, 0, 0) /\ e.result = "ok" THEN Good(done)
+                     ELSE Bad(st, "identify non-configured remote slave: wrong frame")
                 [] OTHER -> Bad(st, "unknown service")
       [] OTHER -> Bad(st, "unknown event")
 TraceFile == JsonDeserialize(IOEnv.TRACE_FILE)
